@@ -5,6 +5,10 @@ Import ListNotations.
 Require Import PV.Core.Obj PV.Core.Val PV.Core.Cls PV.Core.Member PV.Core.CanAssignK PV.Core.CanAssign PV.Core.C04Run.
 Require Import PV.Core.C03Run PV.Proofs.C04Laws PV.Proofs.C04Mono PV.Proofs.C04Refl PV.Gen.ClassTable.
 
+(* conversion hints only: keep the kernel from unfolding the dumped tables / the fuelled equality
+   when it re-checks proof terms (vm_compute is unaffected) *)
+Local Strategy opaque [tassign_tbl issub_tbl nomk_tbl gb_args_tbl gb_noargs_tbl classes veq veq_f].
+
 (* soundness for membership, at full strength (Any-free, no guard) *)
 Definition sound_full_statement : Prop :=
   forall A B o, has_any A = false -> has_any B = false ->
@@ -49,10 +53,6 @@ Proof. vm_compute. reflexivity. Qed.
 Lemma table_object_top : forallb (fun c => tassign table c c_object) classes = true.
 Proof. vm_compute. reflexivity. Qed.
 
-(* protocol classes are compared structurally; the nominal soundness statement is
-   about the classes whose instances are compared nominally *)
-Definition protocol_like (d : N) : bool := existsb (N.eqb d) [27; 28; 20; 21; 30; 31; 29]%N.
-
 (* tassign c d and o instance of c (with promotion)  =>  o instance of d (with promotion) *)
 Lemma table_nominal_sound :
   forallb (fun c' => forallb (fun c => forallb (fun d =>
@@ -66,4 +66,198 @@ Example laws_example :
   can_assign table false A B = true /\ can_assign table true A B = true /\
   can_assign table false B A = false /\
   can_assign table false A (VLeaf (LAny 2)) = true /\ can_assign table true A (VLeaf (LAny 2)) = false.
+Proof. vm_compute. repeat split; reflexivity. Qed.
+
+(* ---- the two table facts behind transitivity on the simple fragment, for ALL class codes
+   (codes outside the dumped table have no row, so every relation is false on them) ---- *)
+Require Import PV.Proofs.C04Simple.
+
+Lemma mem_pair_In : forall c d l, mem_pair c d l = true -> In (c, d) l.
+Proof.
+  induction l as [|[a b] l IH]; simpl; intros H; [discriminate|].
+  apply orb_true_iff in H. destruct H as [H|H].
+  - apply andb_true_iff in H. destruct H as [H1 H2]. apply N.eqb_eq in H1. apply N.eqb_eq in H2. subst. now left.
+  - right. auto.
+Qed.
+
+Lemma mem_pair_first : forall c d l, mem_pair c d l = true -> In c (map fst l).
+Proof. intros c d l H. apply mem_pair_In in H. apply (in_map fst) in H. exact H. Qed.
+
+Lemma find_pair_first : forall {A} c d (l : list ((N * N) * A)) x,
+  find_pair c d l = Some x -> In c (map (fun p => fst (fst p)) l).
+Proof.
+  induction l as [|[[a b] y] l IH]; simpl; intros x H; [discriminate|].
+  destruct (N.eqb a c && N.eqb b d) eqn:E.
+  - apply andb_true_iff in E. destruct E as [E _]. apply N.eqb_eq in E. now left.
+  - right. eapply IH; eauto.
+Qed.
+
+Definition tassign_trans_check : bool :=
+  forallb (fun p => forallb (fun q =>
+     implb (N.eqb (snd p) (fst q) && negb (protocol_like (snd q))) (mem_pair (fst p) (snd q) tassign_tbl))
+     tassign_tbl) tassign_tbl.
+
+Lemma tassign_trans_check_ok : tassign_trans_check = true.
+Proof. vm_compute. reflexivity. Qed.
+
+Theorem table_tassign_transitive : tassign_transitive table.
+Proof.
+  intros c1 c2 c3 Hp H12 H23. cbn [tassign table] in *.
+  apply mem_pair_In in H12. apply mem_pair_In in H23.
+  pose proof tassign_trans_check_ok as H. unfold tassign_trans_check in H.
+  rewrite forallb_forall in H. specialize (H _ H12). rewrite forallb_forall in H. specialize (H _ H23).
+  cbn [fst snd] in H. rewrite N.eqb_refl, Hp in H. exact H.
+Qed.
+
+(* every class code that has a row in any of the three relations *)
+Definition all_keys : list N :=
+  map fst tassign_tbl ++ map fst issub_tbl ++ map (fun p => fst (fst p)) nomk_tbl.
+
+Definition nominal_up_check : bool :=
+  forallb (fun k => forallb (fun q =>
+     implb (negb (protocol_like (snd q)) && nominal table k (fst q)) (nominal table k (snd q)))
+     tassign_tbl) (nodup N.eq_dec all_keys).
+
+Lemma nominal_up_check_ok : nominal_up_check = true.
+Proof. vm_compute. reflexivity. Qed.
+
+Lemma nominal_key : forall k c, nominal table k c = true -> In k all_keys.
+Proof.
+  intros k c H. unfold nominal in H. cbn [nomk tassign issub table] in H. unfold all_keys.
+  destruct (find_pair k c nomk_tbl) as [b|] eqn:F.
+  - apply in_or_app. right. apply in_or_app. right. eapply find_pair_first; eauto.
+  - apply orb_true_iff in H. destruct H as [H|H].
+    + apply in_or_app. left. eapply mem_pair_first; eauto.
+    + apply in_or_app. right. apply in_or_app. left. eapply mem_pair_first; eauto.
+Qed.
+
+Theorem table_nominal_upward : nominal_upward table.
+Proof.
+  intros k c d Hp Hn Ht.
+  assert (Hk : In k (nodup N.eq_dec all_keys)) by (apply nodup_In; eapply nominal_key; eauto).
+  cbn [tassign table] in Ht. apply mem_pair_In in Ht.
+  pose proof nominal_up_check_ok as H. unfold nominal_up_check in H.
+  rewrite forallb_forall in H. specialize (H _ Hk). rewrite forallb_forall in H. specialize (H _ Ht).
+  cbn [fst snd] in H. rewrite Hp, Hn in H. exact H.
+Qed.
+
+(* end to end on the dumped table: the modelled acceptance is a preorder on the simple fragment *)
+Theorem simple_transitive_table : forall n A B C,
+  simple A = true -> simple B = true -> simple C = true -> not_any B = true ->
+  can_assign_f table (S (S (S n))) false A B = true -> can_assign_f table (S (S (S n))) false B C = true ->
+  can_assign_f table (S (S (S n))) false A C = true.
+Proof.
+  intros n A B C HA HB HC HnB H1 H2.
+  rewrite (simple_closed_form table n A B HA HB) in H1. rewrite (simple_closed_form table n B C HB HC) in H2.
+  rewrite (simple_closed_form table n A C HA HC).
+  exact (acc_simple_trans table table_tassign_transitive table_nominal_upward A B C HA HB HC HnB H1 H2).
+Qed.
+
+Theorem simple_reflexive_table : forall n A,
+  simple A = true -> forallb (atom_ok table) (atoms_of A) = true ->
+  can_assign_f table (S (S (S n))) false A A = true.
+Proof. intros n A HA Hok. rewrite simple_closed_form by assumption. now apply acc_simple_refl. Qed.
+
+(* ---- the four table facts behind membership-soundness, for all class codes ---- *)
+Require Import PV.Proofs.C04Sound.
+
+Lemma sub_promo_key : forall k c, sub_promo table k c = true -> In k (map fst issub_tbl).
+Proof.
+  intros k c H. unfold sub_promo in H. cbn [issub table] in H.
+  apply orb_true_iff in H. destruct H as [H|H]; [apply orb_true_iff in H; destruct H as [H|H]|].
+  - eapply mem_pair_first; eauto.
+  - apply andb_true_iff in H. destruct H as [H _]. eapply mem_pair_first; eauto.
+  - apply andb_true_iff in H. destruct H as [H _]. eapply mem_pair_first; eauto.
+Qed.
+
+Definition f_up_check : bool :=
+  forallb (fun k => forallb (fun q =>
+     implb (nominal_cls (snd q) && sub_promo table k (fst q)) (sub_promo table k (snd q))) tassign_tbl)
+     (nodup N.eq_dec (map fst issub_tbl)).
+Lemma f_up_check_ok : f_up_check = true. Proof. vm_compute. reflexivity. Qed.
+
+Definition f_nom_check : bool :=
+  forallb (fun k => forallb (fun d => implb (nominal_cls d && nominal table k d) (sub_promo table k d)) classes)
+          (nodup N.eq_dec all_keys).
+Lemma f_nom_check_ok : f_nom_check = true. Proof. vm_compute. reflexivity. Qed.
+
+Definition f_tsub_check : bool :=
+  forallb (fun q => implb (nominal_cls (snd q)) (sub_promo table (fst q) (snd q))) tassign_tbl.
+Lemma f_tsub_check_ok : f_tsub_check = true. Proof. vm_compute. reflexivity. Qed.
+
+Definition f_gb_check : bool :=
+  forallb (fun p => forallb (fun g =>
+     implb (N.eqb (snd p) (fst (fst g))) (mem_pair (fst p) (snd (fst g)) issub_tbl)) gb_args_tbl) issub_tbl.
+Lemma f_gb_check_ok : f_gb_check = true. Proof. vm_compute. reflexivity. Qed.
+
+Lemma find_pair_In : forall {A} c d (l : list ((N * N) * A)) x, find_pair c d l = Some x -> In ((c, d), x) l.
+Proof.
+  induction l as [|[[a b] y] l IH]; simpl; intros x H; [discriminate|].
+  destruct (N.eqb a c && N.eqb b d) eqn:E.
+  - apply andb_true_iff in E. destruct E as [E1 E2]. apply N.eqb_eq in E1. apply N.eqb_eq in E2.
+    injection H as <-. subst. now left.
+  - right. auto.
+Qed.
+
+(* every target that has an acceptance row is a class of the universe *)
+Definition targets_in_classes : bool :=
+  forallb (fun q => existsb (N.eqb (snd q)) classes) tassign_tbl &&
+  forallb (fun q => existsb (N.eqb (snd q)) classes) issub_tbl &&
+  forallb (fun q => existsb (N.eqb (snd (fst q))) classes) nomk_tbl.
+Lemma targets_in_classes_ok : targets_in_classes = true. Proof. vm_compute. reflexivity. Qed.
+
+Lemma nominal_target : forall k d, nominal table k d = true -> In d classes.
+Proof.
+  intros k d H. pose proof targets_in_classes_ok as T. unfold targets_in_classes in T.
+  apply andb_true_iff in T. destruct T as [T T3]. apply andb_true_iff in T. destruct T as [T1 T2].
+  rewrite forallb_forall in T1, T2, T3.
+  unfold nominal in H. cbn [nomk tassign issub table] in H.
+  assert (G : forall x, existsb (N.eqb x) classes = true -> In x classes).
+  { intros x E. apply existsb_exists in E. destruct E as [y [Hy Ey]]. apply N.eqb_eq in Ey. now subst. }
+  destruct (find_pair k d nomk_tbl) as [b|] eqn:Fp.
+  - apply find_pair_In in Fp. apply G. exact (T3 _ Fp).
+  - apply orb_true_iff in H. destruct H as [H|H]; apply mem_pair_In in H; apply G; [exact (T1 _ H)|exact (T2 _ H)].
+Qed.
+
+Theorem table_sound_facts : sound_facts table.
+Proof.
+  constructor.
+  - intros k c d Hnp Hs Ht.
+    assert (Hk : In k (nodup N.eq_dec (map fst issub_tbl))) by (apply nodup_In; eapply sub_promo_key; eauto).
+    cbn [tassign table] in Ht. apply mem_pair_In in Ht.
+    pose proof f_up_check_ok as H. unfold f_up_check in H.
+    rewrite forallb_forall in H. specialize (H _ Hk). rewrite forallb_forall in H. specialize (H _ Ht).
+    cbn [fst snd] in H. rewrite Hnp, Hs in H. exact H.
+  - intros k d Hnp Hn.
+    assert (Hk : In k (nodup N.eq_dec all_keys)) by (apply nodup_In; eapply nominal_key; eauto).
+    assert (Hd := nominal_target k d Hn).
+    pose proof f_nom_check_ok as H. unfold f_nom_check in H.
+    rewrite forallb_forall in H. specialize (H _ Hk). rewrite forallb_forall in H. specialize (H _ Hd).
+    rewrite Hnp, Hn in H. exact H.
+  - intros c d Hnp Ht. cbn [tassign table] in Ht. apply mem_pair_In in Ht.
+    pose proof f_tsub_check_ok as H. unfold f_tsub_check in H. rewrite forallb_forall in H. specialize (H _ Ht).
+    cbn [fst snd] in H. rewrite Hnp in H. exact H.
+  - intros k c d Hkc Hcd [gs Hg]. cbn [issub gb_args table] in *.
+    apply mem_pair_In in Hkc. apply find_pair_In in Hg.
+    pose proof f_gb_check_ok as H. unfold f_gb_check in H.
+    rewrite forallb_forall in H. specialize (H _ Hkc). rewrite forallb_forall in H. specialize (H _ Hg).
+    cbn [fst snd] in H. rewrite N.eqb_refl in H. exact H.
+Qed.
+
+(* membership-soundness on the dumped table, end to end *)
+Theorem strict_sound_table : forall n A B o,
+  strict_f table n A B = true -> member table B o = true -> member table A o = true.
+Proof. intros n A B o H. exact (strict_sound table table_sound_facts n A B H o). Qed.
+
+(* the sound core covers non-trivial pairs: Sequence[float | None] <- list[bool | None],
+   Mapping[str, tuple[int, A]] <- dict[str, tuple[bool, B]], type[A] <- type[B] *)
+Definition t_cls (c : N) := VLeaf (LTyped c false).
+Definition t_none := VLeaf (LKnown ONone).
+Lemma strict_examples :
+  strict_f table 6 (VNode (TGeneric c_Sequence) [VUnion [t_cls c_float; t_none]])
+                   (VNode (TGeneric c_list) [VUnion [t_cls c_bool; t_none]]) = true /\
+  strict_f table 6 (VNode (TGeneric c_Mapping) [t_cls c_str; VNode (TSeq c_tuple [false; false]) [VUnion [t_cls c_int; t_cls 40]; t_cls c_int; t_cls 40]])
+                   (VNode (TGeneric c_dict) [t_cls c_str; VNode (TSeq c_tuple [false; false]) [VUnion [t_cls c_bool; t_cls 41]; t_cls c_bool; t_cls 41]]) = true /\
+  strict_f table 6 (VNode (TSubclass false) [t_cls 40]) (VNode (TSubclass false) [t_cls 41]) = true /\
+  strict_f table 6 (VNode (TGeneric c_list) [t_cls c_int]) (t_cls c_list) = false.
 Proof. vm_compute. repeat split; reflexivity. Qed.
